@@ -160,3 +160,46 @@ PROPS = {
         "partial": "the JSON string codec itself is not modelled",
     },
 }
+
+
+# what each claimed check asserts (goes into MANIFEST.json)
+CLAIMS = {
+    "C01": {"technique": "Lean 4 proof (fold invariant over abstract lints) + exhaustive scripted-lint correspondence + corpus/mutant sweep",
+            "text": "Theorems runAll_exact / flags_iff / runAll_panics_iff hold for every list of lints with distinct names, every object, configuration and mix of statuses (incl. panics, nil results, out-of-range statuses). The model is tied to zlint.go/resultset.go/lint/base.go by running scripted lints through the real entry points and comparing complete result sets and call logs with the compiled Lean model; real lints are swept over the corpus and parser-accepted mutants with the property as oracle.",
+            "note": "Trusted: Lean kernel; harness and driver line protocol; that real rule bodies are well-behaved rests on the extracted status sets (C06) and C02. No-hang only by timeout."},
+    "C03": {"technique": "Lean 4 proof of the half-open window + window-grid correspondence + boundary re-dating sweep",
+            "text": "checkEffective_spec and no_finding_outside_window are proved for all metadata (zero/non-zero dates, sub-second), all instants and all lint behaviours of all three kinds; boundary exactness at eff, eff-1s, ineff-1s, ineff. Tie: scripted lints at every window position (incl. non-UTC encodings and OCSP without nextUpdate); search: every registered lint at every distinct registry date +-1s on re-dated corpus objects.",
+            "note": "Trusted: A-TIME (time.Time compares by instant), the parser's decoding of encoded times (validated on every re-dated object)."},
+    "C04": {"technique": "Lean 4 proof (call-log model of Execute) + scope-view correspondence + direct-call oracle",
+            "text": "scope_gate, inapplicable_NA, execute_only_after_applies, verdict_stands, body_panic_fatal, config_error_fatal hold for every lint, object and configuration; the three scope predicates are modelled over a parsed view and compared with util.IsServerAuthCert / IsEmailProtectionCert / IsCodeSigning through the framework on a grid of EKU / policy / SAN shapes, including re-linting the same object pointer after in-place edits; every real lint is compared with a direct CheckApplies/Execute call on a fresh configured instance.",
+            "note": "Trusted: harness; the view abstraction of a certificate."},
+    "C06": {"technique": "Lean 4 kernel evaluation over SSA-extracted status sets of every Execute + lifting lemma",
+            "text": "For every registration found in the lint tree the set of statuses its Execute can return (all return paths, through helpers and pointer parameters) is regenerated and checked against the prefix rule by decide +kernel; framework_adds_only/severity_lifted lift it to every run. Nine committed known findings are excused by name+status only.",
+            "note": "Trusted: the status-set data-flow of extract/status.go (unknown never passes; observed statuses must lie inside the extracted sets)."},
+    "C07": {"technique": "Lean 4 proof (restriction + flag monotonicity) + filtered-vs-full search",
+            "text": "filtered_is_restriction and flags_monotone hold for all lint lists with distinct names, any sub-list, all objects and configurations; filter_shares_lints links to Registry.Filter. Search: corpus objects and mutants with random valid FilterOptions and every singleton registry, fresh parse per run, status and details compared.",
+            "note": "Rests on lints not writing the object or global state (footprints, C05): in the model Execute is a function of (lint, object, configuration)."},
+    "C08": {"technique": "Lean 4 proof of filter_spec / filter_error_iff by induction over the filter loop + op-sequence correspondence",
+            "text": "For every registry satisfying the lookup invariant with names unique across kinds and every FilterOptions: the filtered registry holds precisely the selected entries of each kind (same values), keeps the invariant and the configuration; an error arises exactly for an unknown trimmed name or a name pattern combined with name lists. Tie: thousands of option sets on the real global registry and on hook-built registries (cross-kind clashes, interleaved reads and registrations, chained filters).",
+            "note": "Regexp modelled as a predicate; TrimSpace on ASCII blanks."},
+    "C12": {"technique": "Lean 4 kernel evaluation: AST census vs run-time registry + induction over register",
+            "text": "census_eq_runtime, names_sorted_unique, lookups_agree, wellformed, lint_types_eq_registered_types, all_packages_linked are decided by the kernel over tables regenerated from the source (F1) and from a default build at run time (F2); register_inv_all shows the agreement of the lookup tables is preserved by every registration sequence.",
+            "note": "Trusted: extractor census, run-time dump."},
+    "C13": {"technique": "Lean 4 proof over the filter model + kernel evaluation over regenerated case lists + exhaustive loop",
+            "text": "listed_name_selectable / unknown_name_rejected follow from C08's filter_error_iff; every source the registry lists is in the regenerated FromString and UnmarshalJSON case lists (decide); SourceList.FromString's loop is characterised (accept iff all values known; unknown rejected). Exhaustive run over every listed name and source through the real API.",
+            "note": "CLI plumbing of the same options belongs to C15."},
+    "C14": {"technique": "Lean 4 kernel evaluation over regenerated label tables + codec correspondence + JSON round trips",
+            "text": "labels_injective, status_roundtrip, unknown_label_rejected, out_of_range_not_decodable, struct-tag facts and listing_one_line_per_lint; result_roundtrip_partial with the JSON string codec abstracted. Tie: MarshalJSON/UnmarshalJSON of statuses and sources vs the model; real result sets with hostile details round-tripped (per-byte U+FFFD oracle); WriteJSON decoded line by line.",
+            "note": "Partial: encoding/json itself is assumed (A-JSON) and validated, not modelled."},
+    "C16": {"technique": "Lean 4 proofs over Nat (bit length, divisibility, Fermat soundness and completeness) + boundary correspondence",
+            "text": "Each of the thirteen predicates is proved equivalent to its arithmetic meaning for all N, e; modSmallFactor_iff uses kernel-checked coverage of 2..751 by the regenerated prime table; fermat_sound (p*q = n) and fermat_complete for all n and round counts. Tie: kit certificates with chosen (N, e) at every boundary through the real framework, factorisations compared.",
+            "note": "A-RSA (parser delivers N, E as encoded, E < 2^63). Mathlib tactics ring/linarith/nlinarith."},
+    "C18": {"technique": "Lean 4 kernel evaluation of the regenerated 1.5k-row table + proofs of the lookup/period specification + date-boundary correspondence",
+            "text": "table_wellformed (every row; keys strictly sorted), hasValidTLD_spec, isInTLDMap_spec, valid_no_silent_error, tld_lint_spec for all ASCII domains and instants. Tie: util.HasValidTLD/IsInTLDMap at every entry's delegation and removal instant +-1s in three time zones, the lint on re-dated certificates.",
+            "note": "ASCII domains; time.Parse modelled by parseDate."},
+    "C19": {"technique": "Lean 4 proofs over CIDR arithmetic on Nat + kernel evaluation over the regenerated network table + edge correspondence",
+            "text": "contains_reserved_intersects, intersects_mono, host_network, mapped_eq_host/net, special_blocks_reserved hold for all addresses and canonical CIDR networks, given table facts (table_covers_nonGU, special_blocks_covered) decided by the kernel over the regenerated table. Tie: IsIANAReserved/IntersectsIANAReserved/IsGlobalUnicast/Contains on block edges, all super- and sub-prefixes, 4-byte and mapped forms.",
+            "note": "A-NET (net.IP/IPNet as modelled); canonical networks with contiguous masks."},
+}
+
+NOT_APPLICABLE = {}
